@@ -31,6 +31,7 @@ THEOREMS = [
     "Aio.C13.silent_peer_after_coincidence_is_detected",
     "Aio.C13.server_close_deadline_not_restarted",
     "Aio.C13.closing_state_cancels_heartbeat",
+    "Aio.C13.crossing_closes_report_peer_code",
 ]
 RULE = ("One scenario = a session configuration (server|client, autoclose, autoping, heartbeat in {none,2,8,11 s}, "
         "receive timeout in {none,0.75,3 s}, close timeout in {0.5,1.5,10 s}, writer limit in {1,20,65536} / client default) "
@@ -47,7 +48,12 @@ RULE = ("One scenario = a session configuration (server|client, autoclose, autop
         "(d) the heartbeat timer firing at the instant a peer frame is processed (frame first), both sides; (e) peer CLOSE received, "
         "autoclose on/off x heartbeat 2/8 s, application waits > 1.5 x heartbeat before close(), peer silent: no PING after the peer's CLOSE, "
         "clean end (peer's code, one CLOSE frame, no exception); (f) peer that keeps sending TEXT/PING/PONG every (timeout-125 ms) for "
-        "six rounds after our CLOSE, both sides: close() within the close timeout. A case is "
+        "six rounds after our CLOSE, both sides: close() within the close timeout; (g) crossing closes: receive() parked, peer CLOSE and a "
+        "second task's close() at every tick distance, both sides, autoclose on/off; (h) read-side flow control (oracle only, not in the Lean "
+        "model): a transport that honours pause_reading(), single messages of size {L-1,L,L+1,L+4096,2L} around the queue's high-water mark "
+        "L=2*DEFAULT_CHUNK_SIZE first/last/between small ones, the peer's next frames in the same or a later segment, segments of 4/64/256 KiB, "
+        "fast and slow application, many medium messages, and an eager peer pipelining frames in the handshake segment (server: handler "
+        "delays prepare(), read_bufsize default/1/2 MiB): every message arrives in order, receive() ends with the peer's CLOSE, clean end, no stall. A case is "
         "non-trivial when the projection changes at least twice; distinct by (configuration, labels).")
 TRUSTED_BASE = [
     "the hand-written model lean/AioModel/C13.lean of web_ws.py / client_ws.py / _websocket/writer.py / WebSocketDataQueue / "
@@ -56,6 +62,8 @@ TRUSTED_BASE = [
     "asyncio.timeout enter/exit/_on_timeout, eager task start; exercised against CPython 3.12 by the same conformance run",
     "harness/common/c13sim.py: in-memory transport (close()/abort()/drop schedule connection_lost via call_soon; writes after "
     "closing are discarded; data is not delivered once closing) and the one-callback-at-a-time stepping of a real SelectorEventLoop subclass",
+    "read-side flow control (WebSocketDataQueue size accounting, protocol pause_reading/resume_reading, RequestHandler._msg_queue_paused) "
+    "is not in the Lean model: it is judged by the direct oracle on the real objects only (flow scenarios)",
     "the frame parser is not part of this model (property C12): peer frames enter as parsed messages; 'bad' stands for any frame "
     "the real parser rejects with WebSocketError(1002)",
 ]
@@ -346,7 +354,9 @@ def oracle(ctx, cfg, labels, trace, a_end, complete, case, a_start=None):
             break
     faults_a = any(l[0] in ("cancel", "drop", "pausew") or (l[0] == "peer" and l[1] == "bad") for l in labels[:a_end])
     if k is not None and pcode != "0" and not faults_a and not any(l[0] == "peer" for l in labels[k:a_end]) \
-            and P[k - 1]["c"] == "0" and P[k - 1]["tc"] == "0":
+            and P[k - 1]["tc"] == "0" and (P[k - 1]["c"] == "0" or (P[k - 1]["cc"] == "-" and P[k - 1]["ex"] == "-")):
+        # (the session may already be `closed` at that moment only because another task's close() is in flight:
+        #  our CLOSE is out, no code and no exception recorded yet — crossing closes, still a clean handshake)
         n_ping = P[k]["frames"].count("P")
         j = next((j for j in range(k + 1, a_end + 1) if P[j]["frames"].count("P") > n_ping), None)
         app_ping = any(l[0] == "call" and l[2] == "ping" for l in labels[:a_end])   # ws.ping() by the application itself
@@ -354,11 +364,15 @@ def oracle(ctx, cfg, labels, trace, a_end, complete, case, a_start=None):
             ctx.violation("C13/peer-close-received/ping-sent-afterwards", case,
                           f"receive() returned the peer's CLOSE({pcode}) at step {k} (t={P[k]['now']} ms), the peer is silent, yet a PING "
                           f"was written at t={P[j]['now']} ms: the heartbeat is still running in closing state: {trace[j]}")
-        if A["c"] == "1":
+        if A["c"] == "1" and all(st != "p" for st in A["tasks"]):
             n_close = sum(1 for f in A["frames"] if f.startswith("C"))
             if A["cc"] != pcode or n_close != 1 or A["ex"] != "-":
                 over = any(p["c"] == "1" and p["cc"] == pcode for p in P[k:a_end])
+                # structural: the peer's code was already recorded on the closed session, then a close() whose read() had been
+                # woken for that very CLOSE found the queue empty (receive() took the message) -> EofStream -> 1006
+                stolen = over and n_close == 1 and A["cc"] == "1006" and A["ex"] == "eof"
                 ctx.violation("C13/close-code/receive-overwrites-code-of-closed-session" if (over and n_close == 1 and A["ex"] == "-")
+                              else "C13/close-code/close-overwrites-peer-code-after-receive-took-the-close" if stolen
                               else "C13/peer-close-received/not-a-clean-end", case,
                               f"peer's CLOSE({pcode}) was received and nothing went wrong afterwards, but the session ended with close code "
                               f"{A['cc']}, {n_close} CLOSE frame(s) sent, exception {A['ex']}: {trace[a_end]}")
@@ -416,6 +430,81 @@ def oracle_f9(ctx, cfg, size, seg):
                       f"receive() parked forever: transport read-paused={res['read_paused']} after {res['reads']} reads, "
                       f"{res['undelivered']} bytes of the frame never read, nothing ready, no timer")
     return res
+
+
+def oracle_flow(ctx, plan):
+    """Read-side flow control, judged on the real objects (this part of the code is not in the Lean model): a peer
+    sends legal frames ending with CLOSE through a transport that honours pause_reading(); an application task reads
+    until a terminal message.  Every message must arrive, in order; receive() must end with the peer's CLOSE; the
+    session must end closed with the peer's code and the transport closed; nothing may be left stalled."""
+    res = c13sim.run_flow(plan)
+    case = {"kind": "flow", "plan": plan}
+    if res.get("setup_failed"):
+        ctx.violation("C13/flow/handshake-never-completed", case, "the upgrade never completed")
+        return res
+    exp = [(f[0], f[1]) for f in plan["frames"] if f[0] in ("bin", "text")]
+    code = next(f[1] for f in plan["frames"] if f[0] == "close")
+    exp_all = exp + [(f"CLOSE{code}",)]
+    got = [tuple(g) for g in res["got"]]
+    ctx.hit("flow:" + plan["side"], "flow:pauses>0" if res["pauses"] else "flow:no-pause",
+            "flow:eager" if plan.get("eager") else "flow:after-handshake")
+    state = (f"read {len(got)}/{len(exp_all)} messages, transport read-paused={res['read_paused']} with {res['inbox_left']} bytes unread, "
+             f"protocol._reading_paused={res['proto_reading_paused']} _msg_queue_paused={res['msg_queue_paused']}, queue size={res['queue_size']} "
+             f"({res['queue_len']} messages), pauses/resumes={res['pauses']}/{res['resumes']}, closed={res['closed']} close_code={res['close_code']}")
+    if not res["app_done"]:
+        if res["read_paused"] and res["inbox_left"] and not res["tr_closing"]:
+            why = ("reader-queue-flag-stuck" if res["proto_reading_paused"]
+                   else "msg-queue-flag-stuck" if res["msg_queue_paused"] else "other")
+            ctx.violation(f"C13/receive-parked/read-paused-never-resumed/{why}", case,
+                          "receive() is blocked for ever, nothing is ready and no timer is armed: " + state)
+        else:
+            ctx.violation("C13/receive-parked/flow-other", case, "receive() is blocked for ever: " + state)
+        return res
+    if res["app_error"] is not None:
+        ctx.violation("C13/flow/receive-raised", case, f"receive() raised {res['app_error']}: " + state)
+        return res
+    if got != exp_all:
+        k = next((i for i in range(min(len(got), len(exp_all))) if got[i] != exp_all[i]), min(len(got), len(exp_all)))
+        ctx.violation("C13/flow/wrong-message-sequence", case,
+                      f"message {k}: got {got[k] if k < len(got) else None}, expected {exp_all[k] if k < len(exp_all) else None}: " + state)
+        return res
+    if not (res["closed"] and res["close_code"] == code and res["tr_closing"]):
+        ctx.violation("C13/flow/not-a-clean-end", case, "all messages read, but: " + state)
+    return res
+
+
+def flow_plans(rng, quick):
+    L = 2 * CLIENT_LIMIT     # WebSocketDataQueue high-water mark: limit * 2 with limit = DEFAULT_CHUNK_SIZE
+    plans = []
+    sizes = [L - 1, L, L + 1, L + 4096, 2 * L] if not quick else [L - 1, L + 1, L + 4096]
+    for side in ("server", "client"):
+        for n in sizes:
+            for seg in ((65536, 262144) if quick else (4096, 65536, 262144)):
+                for delay in (0, 5):
+                    # the big message last / first / between small ones
+                    plans.append({"side": side, "frames": [("bin", n), ("text", 5), ("close", 4001)], "seg": seg, "app_delay_ms": delay})
+                    plans.append({"side": side, "frames": [("text", 7), ("bin", n), ("ping",), ("text", 5), ("text", 6), ("close", 1000)],
+                                  "seg": seg, "app_delay_ms": delay})
+                    # the peer's next frames come in a later segment: the big message is alone in the queue when it is read
+                    plans.append({"side": side, "frames": [("bin", n), ("text", 5), ("close", 4001)], "seg": seg, "app_delay_ms": delay,
+                                  "split_after": 1, "gap_ms": 125})
+                    plans.append({"side": side, "frames": [("text", 3), ("bin", n), ("bin", n), ("close", 1000)], "seg": seg,
+                                  "app_delay_ms": delay, "split_after": 2, "gap_ms": 250})
+        # many medium messages that together cross the mark while the application is slow
+        for k, n in ((40, 30000), (12, 100000)):
+            plans.append({"side": side, "frames": [("bin", n)] * k + [("text", 1), ("close", 4000)], "seg": 65536, "app_delay_ms": 5})
+        # eager peer: frames pipelined in the same bytes as the handshake
+        for k, n in ((40, 30000), (3, 300000), (1, L + 4096)):
+            frames = [("bin", n)] * k + [("text", 2), ("close", 1000)]
+            if side == "client":
+                plans.append({"side": side, "frames": frames, "seg": 65536, "eager": True, "app_delay_ms": 0})
+            else:
+                for rb in (None, 2 ** 20, 2 ** 21):
+                    for pre in (0, 1000):
+                        for seg in (65536, 262144):
+                            plans.append({"side": side, "frames": frames, "seg": seg, "eager": True, "pre_delay_ms": pre,
+                                          "read_bufsize": rb, "app_delay_ms": rng.choice([0, 5])})
+    return plans
 
 
 # ------------------------------------------------------------------------------- structured / exhaustive
@@ -544,6 +633,8 @@ def check(ctx):
         (cli, [("call", 0, "recv"), ("tick",), ("peer", "bad")]),
         (dict(srv, heartbeat=2000), [("call", 0, "recv"), ("tick",), ("tick",), ("tick",), ("tick",), ("peer", "bad"), ("tick",), ("tick",)]),
         (cli, [("call", 1, "recv"), ("call", 0, "close", 1000), ("call", 2, "close", 1000), ("tick",), ("tick",), ("peer", "close", 1001)]),
+        (cli, [("call", 0, "recv"), ("tick",), ("call", 2, "close", 1000), ("call", 1, "close", 1000), ("tick",), ("tick",),
+               ("peer", "close", 1001)]),
     ]
     run_and_judge(ctx, directed, "directed-findings")
     # receive() on a closed session, repeatedly (server: THRESHOLD_CONNLOST_ACCESS boundary)
@@ -580,6 +671,20 @@ def check(ctx):
                     slow.append((c, head + waits))
                     slow.append((c, [("adv", 1000)] + head + waits + [("call", 0, "close", 1001), ("tick",), ("tick",)]))
     run_and_judge(ctx, slow, "peer-close-then-slow-application")
+    # crossing closes: task A is parked in receive(), the peer's CLOSE is delivered, task B calls close() before / while / after
+    # A is resumed (every tick distance), both sides, autoclose on and off
+    cross = []
+    for base in (srv, cli):
+        for ac in (True, False):
+            c = dict(base, autoclose=ac, close_timeout=1500)
+            for code in (4001, 1000):
+                for d1 in range(0, 4):
+                    for d2 in range(0, 3):
+                        cross.append((c, [("call", 0, "recv"), ("tick",), ("peer", "close", code)] + [("tick",)] * d1
+                                      + [("call", 1, "close", 1000)] + [("tick",)] * d2))
+                        cross.append((c, [("call", 0, "recv"), ("tick",), ("call", 1, "close", 1000)] + [("tick",)] * d1
+                                      + [("peer", "close", code)] + [("tick",)] * d2))
+    run_and_judge(ctx, cross, "crossing-closes")
     # the peer got our CLOSE but keeps talking (TEXT / PING / PONG) at intervals shorter than the close timeout,
     # for several timeouts, and never answers with CLOSE
     chatty = []
@@ -595,6 +700,11 @@ def check(ctx):
                     chatty.append((c, labs))
                     chatty.append((c, [("call", 1, "recv"), ("tick",)] + labs))
     run_and_judge(ctx, chatty, "chatty-peer-after-close")
+    # read-side flow control with a transport that honours pause_reading()
+    for plan in flow_plans(rng, ctx.quick):
+        res = oracle_flow(ctx, plan)
+        ctx.case(("flow", plan), nontrivial=True,
+                 sample={"flow": plan, "pauses": res.get("pauses"), "read": len(res.get("got", []))} if plan.get("eager") and plan.get("read_bufsize") == 2 ** 20 and plan.get("pre_delay_ms") else None)
     oracle_f9(ctx, F9_CFG, 40000, 2)
     oracle_f9(ctx, dict(F9_CFG, side="client", limit=CLIENT_LIMIT), 40000, 2)
     ctx.case(("f9",), nontrivial=True)
@@ -604,7 +714,8 @@ def check(ctx):
             "task:x:reset", "task:r:CLOSED", "task:r:CLOSING", "task:r:ERROR", "task:c:0", "task:c:1", "exc:pongtimeout", "exc:timeout",
             "exc:eof", "exc:wserr", "code:1006", "code:1000", "code:4000", "side:server", "side:client", "label:drop", "label:cancel",
             "label:pausew", "label:adv",
-            "state:heartbeat-fired-while-reset-pending:server", "state:heartbeat-fired-while-reset-pending:client"]
+            "state:heartbeat-fired-while-reset-pending:server", "state:heartbeat-fired-while-reset-pending:client",
+            "flow:server", "flow:client", "flow:pauses>0", "flow:eager"]
     missing = [k for k in need if not ctx.hits.get(k)]
     if missing:
         from .common.guard import MachineryError
@@ -621,6 +732,9 @@ def parse_token(tok):
 
 
 def replay(ctx, case):
+    if case.get("kind") == "flow":
+        oracle_flow(ctx, case["plan"])
+        return
     if case.get("kind") == "f9":
         oracle_f9(ctx, case["cfg"], case["size"], case["seg"])
         return
